@@ -298,7 +298,7 @@ func (s *sshSimulatorService) Handle(ctx context.Context, conn net.Conn) error {
 					payloads := []string{}
 
 					for {
-						if decoder.Available() == 0 {
+						if decoder.Available() == 0 || decoder.LastError() != nil {
 							break
 						}
 
@@ -320,7 +320,7 @@ func (s *sshSimulatorService) Handle(ctx context.Context, conn net.Conn) error {
 					payloads := []string{}
 
 					for {
-						if decoder.Available() == 0 {
+						if decoder.Available() == 0 || decoder.LastError() != nil {
 							break
 						}
 
